@@ -27,7 +27,7 @@ PARALLEL = 14
 
 def floors(tier):
     k = 1 if tier == "quick" else 3
-    return {"subsets": 25 * k, "types_required_usable": 300 * k, "types_absent_confirmed": 150 * k, "kept_rpc_calls": 100 * k, "internal_rpc_calls": 40 * k, "internal_cases": 8 * k,
+    return {"subsets": 25 * k, "types_required_usable": 300 * k, "types_absent_confirmed": 150 * k, "kept_rpc_calls": 100 * k, "internal_rpc_calls": 40 * k, "auto_populated_calls": 10 * k, "internal_cases": 8 * k,
             "rejections_checked": 3, "emptied_service_cases": 5 * k,
             "extended_operation_cases": 15 * k, "ext_op_flows": 10 * k}
 
@@ -251,7 +251,14 @@ def run_case(case):
         listed.append(f"{pkg}.Nowhere.GetShelf")
     elif bad_kind == "other_package":
         listed.append("google.longrunning.Operations.GetOperation")
-    api.aux["service-yaml"] = ("svc.yaml", apigen.service_yaml(api, publishing=apigen.selective_publishing(pkg, listed, internal=case["internal"])))
+    pub = apigen.selective_publishing(pkg, listed, internal=case["internal"])
+    autopop = set()
+    if api.info.get("autopop_candidates"):
+        # AIP-4235 method settings next to selective generation: in keep-as-internal mode nothing is omitted, so the settings of unlisted
+        # RPCs still apply to their _methods; in omit mode only listed RPCs are configured
+        autopop = {n for n in api.info["autopop_candidates"] if case["internal"] or n in case["subset"]}
+        pub["method_settings"] = [{"selector": f"{pkg}.{n}", "auto_populated_fields": ["request_id"]} for n in sorted(autopop)]
+    api.aux["service-yaml"] = ("svc.yaml", apigen.service_yaml(api, publishing=pub))
     req, g, lib = pipeline.build_and_generate(api, scratch)
     counters = {}
     if bad_kind:
@@ -299,6 +306,8 @@ def run_case(case):
             if fd.name in ("name", "parent"):
                 setattr(x, fd.name, {"GetShelf": "shelves/s1", "GetBook": "shelves/s1/books/b1", "ListBooks": "shelves/s1", "TagInner": "shelves/s1",
                                      "ImportBooks": "shelves/s1", "PurgeBooks": "shelves/s1", "DeleteVault": "vaults/v1", "SealVault": "vaults/v1"}.get(m.name, "x"))
+        if "request_id" in x.DESCRIPTOR.fields_by_name:
+            x.request_id = ""
         calls.append({"service": s.name, "rpc": m.name, "method": rdm.py_method(m.name), "req_type": m.input_type.lstrip("."),
                       "request": rdm.b64(x.SerializeToString()), "path": f"/{p.package}.{s.name}/{m.name}"})
     if case["internal"]:
@@ -309,6 +318,8 @@ def run_case(case):
                 continue
             x = model.new(m.input_type)
             rdm.fill(rng, x, max_depth=2)
+            if "request_id" in x.DESCRIPTOR.fields_by_name:
+                x.request_id = ""
             calls.append({"service": s.name, "rpc": m.name, "method": "_" + rdm.py_method(m.name), "req_type": m.input_type.lstrip("."),
                           "request": rdm.b64(x.SerializeToString()), "path": f"/{p.package}.{s.name}/{m.name}", "internal": True})
     script = {"root_pkg": apigen.lib_root(api.info, api.options), "types": types, "calls": calls,
@@ -401,7 +412,20 @@ def run_case(case):
         e = r["event"]
         if e["method"] != c["path"]:
             bad("kept-rpc-path", {"rpc": c["rpc"], "seen": e["method"]})
-        if model.parse(c["req_type"], rdm.unb64(e["requests"][0])) != model.parse(c["req_type"], rdm.unb64(c["request"])):
+        got_m, sent_m = model.parse(c["req_type"], rdm.unb64(e["requests"][0])), model.parse(c["req_type"], rdm.unb64(c["request"]))
+        if f"{c['service']}.{c['rpc']}" in autopop:
+            # configured for auto-population (the probe leaves request_id unset): a fresh UUID4 arrives, on kept and on internal methods alike
+            for ev_, who in ((e, "sync"), (r.get("aio_event"), "asyncio")):
+                if not ev_:
+                    continue
+                gm_ = model.parse(c["req_type"], rdm.unb64(ev_["requests"][0]))
+                bump("auto_populated_calls")
+                if not re.fullmatch(r"[0-9a-f]{8}-[0-9a-f]{4}-4[0-9a-f]{3}-[89ab][0-9a-f]{3}-[0-9a-f]{12}", gm_.request_id):
+                    bad("internal-rpc-not-auto-populated" if c.get("internal") else "kept-rpc-not-auto-populated",
+                        {"rpc": c["rpc"], "client": who, "request_id_received": gm_.request_id}, client=who)
+            got_m.request_id = ""
+            sent_m.request_id = ""
+        if got_m != sent_m:
             bad("kept-rpc-payload", {"rpc": c["rpc"]})
     return {"verdict": "violated" if viol else "held", "violations": pipeline.diverse(viol, 40),
             "evaluations": counters.get("types_required_usable", 0) + counters.get("types_absent_confirmed", 0) + counters.get("kept_rpc_calls", 0),
